@@ -415,6 +415,7 @@ struct Engine : public vf::Engine {
             if (!HEAP.find(W.slots[i].p)) { fail(W, W.slots[i].tracked ? "C04" : "C05", "released_while_held", sg("after", opName), sfmt("after op %zu (%s): the memory of the block held in slot %d (size %zu) was returned to the platform", opIdx, opName, i, W.slots[i].size)); W.slots[i].live = false; continue; }
             if (!checkPat(W.slots[i], W.slots[i].size, &bad)) { fail(W, "C05", "pattern_intact", sg("after", opName), sfmt("after op %zu (%s): byte %zu of live block in slot %d (size %zu) was overwritten", opIdx, opName, bad, i, W.slots[i].size)); W.slots[i].live = false; }
         }
+        if (HEAP.foreignFrees) { fail(W, "C05", "platform_free_of_unknown_address", sg("after", opName), sfmt("after op %zu (%s): the platform free/realloc was handed %ld address(es) that are not the start of a block it had served and not yet got back", opIdx, opName, HEAP.foreignFrees)); HEAP.foreignFrees = 0; }
         if (CTX.bufOverflow) { fail(W, "C14", "buffer_bounds", sg("after", opName), sfmt("after op %zu (%s): %s", opIdx, opName, CTX.bufOverflowDetail.c_str())); CTX.bufOverflow = false; }
         if (HEAP.undersized) { fail(W, "C05", "platform_request_too_small", sg("after", opName), sfmt("op %zu (%s): user asked for %zu bytes, the platform was asked for %zu", opIdx, opName, HEAP.undersizedWanted, HEAP.undersizedGot)); HEAP.undersized = false; }
         if (CTX.nullMemcpy) { fail(W, strcmp(opName, "strdup") == 0 && W.d->profile == "oom" ? "C15" : "C05", "copy_through_null", sg("op", opName), sfmt("op %zu (%s): memory was copied through a NULL pointer (failed allocation not checked)", opIdx, opName)); CTX.nullMemcpy = false; }
